@@ -128,14 +128,16 @@ impl CopyHandle {
     }
 
     fn finalise_copy(&self) -> Result<()> {
+        // Ownership first: chown() clears the set-user-ID and
+        // set-group-ID bits, so permissions must be applied after it.
+        if self.config.ownership && copy_owner(&self.infd, &self.outfd).is_err() {
+            warn!("Failed to copy file ownership: {:?}", self.infd);
+        }
         if !self.config.no_perms {
             copy_permissions(&self.infd, &self.outfd)?;
         }
         if !self.config.no_timestamps {
             copy_timestamps(&self.infd, &self.outfd)?;
-        }
-        if self.config.ownership && copy_owner(&self.infd, &self.outfd).is_err() {
-            warn!("Failed to copy file ownership: {:?}", self.infd);
         }
         if self.config.fsync {
             debug!("Syncing file {:?}", self.outfd);
